@@ -176,7 +176,7 @@ def check_codes():
 
 
 def plan(tier):
-    jobs = [{"part": "codes"}]
+    jobs = [{"part": "codes"}, {"part": "strlen"}]
     for name, size in FIXED.items():
         if size == 1:
             jobs.append({"part": "exhaustive", "type": name, "lo": 0, "hi": 256})
@@ -215,6 +215,16 @@ def run_job(ctx, job):
         for code in R.TYPE_CODES:
             ctx.case(("code", code), True, ["type-code"], sample={"code": code, "name": R.TYPE_CODES[code][0]})
         ctx.exhaustive_parts.append("type-code table")
+    elif part == "strlen":
+        for t, v in C.boundary_string_cases():
+            wrapped = T("struct", members=[["s", t], ["tail", T("UINT")]]) if t["k"] != "STRINGN" or t.get("cs", 1) == 1 else None
+            discs = check_value_case(t, v)
+            if wrapped is not None:
+                discs += check_value_case(wrapped, {"s": v, "tail": 0xBEEF})
+            ctx.case(("strlen", t["k"], t.get("cs"), len(v)), True, ["string", "string-length-boundary"], sample={"type": t, "length": len(v)} if len(v) == 32768 else None)
+            for d in discs:
+                ctx.violation(d, "value", {"t": t, "v": v})
+        ctx.exhaustive_parts.append("string length-prefix boundaries")
     elif part == "exhaustive":
         t = T(job["type"])
         size = FIXED[job["type"]]
